@@ -25,6 +25,7 @@ package cronschedule
 //@ pure thresholdFits(cfg *configv1alpha1.CronExecutionConfig) bool = cfg.MaxDowntimeThresholdSeconds <= 9223372036
 
 //@ func getInitialTimeForScheduling
+//@   params jobConfig, cfg, fromTime, now
 //@   tags C04
 //@   safety overflow, nil
 //@   requires jobConfig != nil && cfg != nil
@@ -48,6 +49,7 @@ package cronschedule
 //@        ? zero(time.Time) : cron.cronNext(expr, from)
 
 //@ func getNext
+//@   params jobConfig, expr, fromTime
 //@   tags C01
 //@   safety nil
 //@   requires jobConfig != nil
@@ -55,6 +57,7 @@ package cronschedule
 //@   ensures [C01] zero-or-later: result.IsZero() || ns(result) > ns(fromTime)
 
 //@ func Schedule.Pop
+//@   params s, fromTime
 //@   tags C01
 //@   safety nil
 //@   requires swf(s)
@@ -69,6 +72,7 @@ package cronschedule
 //@   ensures [C01] unchanged-when-nothing-due: !result2 ==> (forall x string :: due(s, x) == old(due(s, x)) && (due(s, x) ==> dueAt(s, x) == old(dueAt(s, x))))
 
 //@ func Schedule.Delete
+//@   params s, jobConfig
 //@   tags C01, C03
 //@   requires swf(s) && jobConfig != nil
 //@   modifies s.jobConfigs.pq.queue, arrays(*heap.Item), mapof(s.jobConfigs.pq.names), heap(heap.Item)
@@ -89,11 +93,13 @@ package cronschedule
 //@   ensures result1 != nil ==> errclass(result1) == 700
 
 //@ func getTimezone
+//@   params cronSchedule, cfg
 //@   requires cronSchedule != nil && cfg != nil
 //@   ensures [C01,C17] result == (cronSchedule.Timezone != "" ? cronSchedule.Timezone
 //@        : ((cfg.DefaultTimezone != nil && len(*cfg.DefaultTimezone) > 0) ? *cfg.DefaultTimezone : config.DefaultCronTimezone))
 
 //@ func Schedule.parseCronAndTimezone
+//@   params s, jobConfig, parser
 //@   tags C01, C03, C17
 //@   safety nil
 //@   requires s != nil && jobConfig != nil
@@ -108,6 +114,7 @@ package cronschedule
 // one JobConfig of the initial load (cronschedule.New returns the first error of its items, aborting the whole load):
 // an accepted schedule never produces one, except when the configuration itself is unavailable or its default timezone is bad
 //@ func Schedule.newItem
+//@   params s, jobConfig, cfg, parser, now
 //@   tags C17
 //@   requires s != nil && jobConfig != nil && cfg != nil
 //@   modifies clock
@@ -119,6 +126,7 @@ package cronschedule
 // C17 for the running scheduler: Bump parses with a parser built from the configuration as it is *now* (the one admission
 // reads), so an accepted schedule can only fail to be bumped when that configuration is unavailable or its default timezone is bad
 //@ func Schedule.Bump
+//@   params s, jobConfig, fromTime
 //@   tags C01, C03, C17
 //@   requires swf(s) && jobConfig != nil
 //@   modifies s.jobConfigs.pq.queue, arrays(*heap.Item), mapof(s.jobConfigs.pq.names), heap(heap.Item)
